@@ -85,6 +85,7 @@ func genC01(rng *rand.Rand, tier string) *sim.Plan {
 		}
 		return ph
 	}
+	aliasOf := map[int]map[uint16]string{} // publisher -> its inbound alias table (one connection per client in this check)
 	pubPhase := func(mixSubs bool) sim.Phase {
 		var ph sim.Phase
 		for i, c := range p.Clients {
@@ -99,6 +100,20 @@ func genC01(rng *rand.Rand, tier string) *sim.Plan {
 				op.Retain = chance(rng, 0.15)
 				if c.Ver == 5 && chance(rng, 0.4) {
 					randMsgProps(rng, &op)
+				}
+				if c.Ver == 5 && chance(rng, 0.3) {
+					// inbound topic aliases: bind, use alias-only, re-bind to another topic (the message goes where the
+					// alias points NOW)
+					a := uint16(1 + rng.IntN(3))
+					if aliasOf[i] == nil {
+						aliasOf[i] = map[uint16]string{}
+					}
+					op.Alias = sim.U16(a)
+					if t, ok := aliasOf[i][a]; ok && chance(rng, 0.5) {
+						op.Topic, op.NoTopic = t, true
+					} else {
+						aliasOf[i][a] = op.Topic
+					}
 				}
 				if chance(rng, 0.1) {
 					op.PadTo = 1000 + rng.IntN(3000)
